@@ -98,7 +98,7 @@ def c07Packed : Handler := fun c => do
   let steps := decide (bs.length ≤ T)
   let perm := match sidx, uidx with
     | none, none => true
-    | some s, some u => u.length == N &&
+    | some s, some u => s.length == N && u.length == N && s.all (fun i => decide (i < N)) &&
         (List.range N).all (fun j => decide (u.getD j 0 < N) && s.getD (u.getD j 0) 0 == j)
     | _, _ => false
   -- the length C07_packed_seq assigns to sequence j = the length it was packed with
@@ -125,8 +125,27 @@ def distOutJ (r : Except DistErr (List (Option Rat))) : Json :=
   | .ok l => listJ optRatJ l
   | .error .valueError => strJ "ValueError"
   | .error .assertion => strJ "AssertionError"
+  | .error .scoring => strJ "IndexError"
 
 def columnOf (rows : List (List Nat)) (n : Nat) : List Nat := rows.map (fun r => r.getD n 0)
+
+/-- `Rows N V D` (hypothesis of `C07_walk`), evaluated. -/
+def rowsOk (N V : Nat) (D : List (List Nat)) : Bool :=
+  D.all (fun r => r.length == N && r.all (fun x => decide (x < V)))
+
+/-- `Forced eos N D` (hypothesis of `C07_walk`), evaluated. -/
+def forcedOk (eos : Option Nat) (N : Nat) (D : List (List Nat)) : Bool :=
+  match eos with
+  | none => true
+  | some e => (List.range N).all (fun n =>
+      let col := (columnOf D n).toArray
+      (List.range col.size).all (fun j => (List.range j).all (fun i =>
+        col.getD i 0 != e || col.getD j 0 == e)))
+
+/-- All draw hypotheses of `C07_walk` / `C07_sample_*` on one draw matrix. -/
+def drawHyps (V : Nat) (eos : Option Nat) (N T : Nat) (D : List (List Nat)) : Bool :=
+  (match eos with | none => decide (T ≤ D.length) | some e => decide (e < V)) &&
+    rowsOk N V (D.take T) && forcedOk eos N (D.take T)
 
 /-- c07.walk: {V, N, eos, max_iters, lm, lm_default, draws: steps×N} -/
 def c07Walk : Handler := fun c => do
@@ -149,7 +168,10 @@ def c07Walk : Handler := fun c => do
     ("model", objJ [("rows", natJ s.y.length), ("y", listJ natsJ cols), ("lens", natsJ s.lens),
       ("lp", listJ optRatJ s.lp), ("done", listJ boolJ s.done), ("rescored", ratsJ rescored)]),
     ("spec", objJ [("paths", listJ natsJ paths), ("steps", natJ steps),
-      ("chained", ratsJ chained)])])
+      ("chained", ratsJ chained)]),
+    -- the hypotheses of C07_walk_state / C07_walk, evaluated on this case
+    ("flags", objJ [("eos", boolJ (match eos with | none => true | some e => decide (e < V))),
+      ("rows", boolJ (rowsOk N V (draws.take T))), ("forced", boolJ (forcedOk eos N (draws.take T)))])])
 
 /-- c07.advance: {lp_t: N×V, lp_prev: N, y_prev: S×N, lens (or null), draw: N} -/
 def c07Advance : Handler := fun c => do
@@ -245,7 +267,15 @@ def c07Sample : Handler := fun c => do
           let idx ← getNatList e "idx"
           pure (DistOp.logProb (idx.map (fun i => rowsA.getD i [])))) t
   let traceOf := fun (cache : Bool) =>
-    listJ distOutJ (runDist (distCfg lm V eos Topt N cache va) DistCache.empty ops)
+    listJ distOutJ (runDist true (distCfg lm V eos Topt N cache va) DistCache.empty ops)
+  -- the draw hypotheses of C07_sample_in_support / C07_sample_batched_in_support / C07_sample_flat_scored
+  let hyps ← match N with
+    | none => do
+      let draws ← getList (jsonToList jsonToNat) c "draws"
+      pure (M == 0 || drawHyps V eos M T draws)
+    | some n => do
+      let draws ← getList (jsonToList (jsonToList jsonToNat)) c "draws"
+      pure (draws.all (drawHyps V eos n T))
   -- hypothesis of C07_log_prob_cache, evaluated: the walks' scores are the scores of the rows
   let scored := walkLp == scoreRows lm V eos N rows
   let inSupp := rows.map (fun r => match Topt with
@@ -255,7 +285,38 @@ def c07Sample : Handler := fun c => do
     ("model", objJ [("rows", listJ natsJ rows), ("log_probs", ratsJ lps),
       ("valid", listJ boolJ valid), ("trace_cached", traceOf true), ("trace_fresh", traceOf false)]),
     ("spec", objJ [("in_support", listJ boolJ inSupp)]),
-    ("flags", objJ [("scored", boolJ scored)])])
+    ("flags", objJ [("scored", boolJ scored), ("draw_hyps", boolJ hyps)])])
+
+/-- c07.lpraise: {V, N (null = no batch shape), eos, max_iters, lm, lm_default, validate_args,
+values: [rows], trace: [{op: "lp", val: k} | {op: "clear"}]} — `log_prob` calls on one object whose
+language model raises on out-of-vocabulary history tokens (`oovInHistory`): the state machine with
+the pinned and with the repaired write order, cache on and off, and the cache-free reference. -/
+def c07LpRaise : Handler := fun c => do
+  let V ← getNat c "V"
+  let N ← getOptNat c "N"
+  let eos ← getOptNat c "eos"
+  let Topt ← getOptNat c "max_iters"
+  let lm ← parseLM c
+  let va ← getOptBool c "validate_args"
+  let values ← getList (jsonToList (jsonToList jsonToNat)) c "values"
+  let valuesA := values.toArray
+  let ops ← getList (fun e => do
+      let op ← getStr e "op"
+      if op == "clear" then pure (DistOp.clearCache (Value := List (List Nat)) (Scores := List (Option Rat)))
+      else do
+        let k ← getNat e "val"
+        pure (DistOp.logProb (valuesA.getD k []))) c "trace"
+  let cfg := fun (cache : Bool) => distCfg lm V eos Topt N cache va (oovInHistory V)
+  let run := fun (pinned cache : Bool) => listJ distOutJ (runDist pinned (cfg cache) DistCache.empty ops)
+  let ref := listJ distOutJ ((logProbArgs ops).map (refLogProb (cfg true)))
+  -- hypothesis of C07_log_prob_cache_pinned_partial, evaluated: no call reaches a raising scorer
+  let scorable := (logProbArgs ops).all (fun v =>
+    (validating va && !(cfg true).valid v) || (cfg true).isEmpty v || !(cfg true).raises v)
+  pure (objJ [
+    ("model", objJ [("pinned_cached", run true true), ("pinned_fresh", run true false),
+      ("repaired_cached", run false true), ("repaired_fresh", run false false)]),
+    ("spec", objJ [("reference", ref)]),
+    ("flags", objJ [("scorable", boolJ scorable)])])
 
 /-- c07.greedy: {V, frames: N×T×V, lens (or null), blank, is_probs} -/
 def c07Greedy : Handler := fun c => do
@@ -285,4 +346,5 @@ def c07Greedy : Handler := fun c => do
 
 def main : IO Unit := Proto.run [
   ("c07.seq", c07Seq), ("c07.packed", c07Packed), ("c07.walk", c07Walk),
-  ("c07.dist", c07Dist), ("c07.advance", c07Advance), ("c07.sample", c07Sample), ("c07.greedy", c07Greedy)]
+  ("c07.dist", c07Dist), ("c07.advance", c07Advance), ("c07.sample", c07Sample), ("c07.lpraise", c07LpRaise),
+  ("c07.greedy", c07Greedy)]
